@@ -23,6 +23,10 @@ pub const PROBES: &[&str] = &[
     "read_through_std_chain",
     "read_through_std_bufreader",
     "read_through_std_take",
+    "read_through_chain_of_slices",
+    "read_through_chain_of_bufreaders",
+    "read_through_wrapped_ring_buffer",
+    "read_through_boxed_chain",
     "insert_negative_year",
     "first_after_same_month",
     "first_after_later_month",
@@ -682,9 +686,41 @@ fn read_back_std(cx: &mut Ctx, items: &[Item], data: &[u8], r: &Plan, tail_len: 
                 cx.probes.hit("read_through_std_bufreader");
                 run(&mut std::io::BufReader::with_capacity(cut + 1, &mut first))
             }
-            _ => {
+            3 => {
                 cx.probes.hit("read_through_std_take");
                 run(&mut (&mut first).take(data.len() as u64))
+            }
+            // in-memory std readers only (they answer `size_hint`, `read_vectored`, `read_exact` with their own
+            // specialisations); the fault is the short read every one of them makes at its seam
+            4 => {
+                cx.probes.hit("read_through_chain_of_slices");
+                run(&mut (&data[..cut]).chain(&data[cut..]))
+            }
+            5 => {
+                cx.probes.hit("read_through_chain_of_bufreaders");
+                let third = cut + (data.len() - cut) / 2;
+                run(&mut std::io::BufReader::with_capacity(cut + 1, &data[..cut]).chain(std::io::Cursor::new(&data[cut..third])).chain(&data[third..]))
+            }
+            6 => {
+                // a ring buffer whose content wraps at `cut`: `read` only ever returns the first of its two slices
+                cx.probes.hit("read_through_wrapped_ring_buffer");
+                let mut ring: std::collections::VecDeque<u8> = std::collections::VecDeque::with_capacity(data.len().max(1));
+                let cap = ring.capacity();
+                let back = data.len() - cut;
+                // fill so that the head sits `back` bytes before the end of the allocation
+                for _ in 0..cap.saturating_sub(back.min(cap)) {
+                    ring.push_back(0);
+                }
+                for _ in 0..cap.saturating_sub(back.min(cap)) {
+                    ring.pop_front();
+                }
+                ring.extend(data.iter().copied());
+                run(&mut ring)
+            }
+            _ => {
+                cx.probes.hit("read_through_boxed_chain");
+                let mut b: Box<dyn Read + '_> = Box::new((&data[..cut]).chain(&data[cut..]));
+                run(&mut b)
             }
         }
     }
